@@ -92,7 +92,7 @@ func literalRangeLoop(lp *loopInfo) (int64, bool) {
 		}
 		return false
 	}
-	okUses := func(v ssa.Value, self ssa.Instruction) bool {
+	okUses := func(v ssa.Value) bool {
 		refs := v.Referrers()
 		if refs == nil {
 			return false
@@ -122,10 +122,10 @@ func literalRangeLoop(lp *loopInfo) (int64, bool) {
 		}
 		return true
 	}
-	if !okUses(phi, nil) {
+	if !okUses(phi) {
 		return 0, false
 	}
-	if inc != nil && !okUses(inc, nil) {
+	if inc != nil && !okUses(inc) {
 		return 0, false
 	}
 	if inc == nil {
